@@ -610,6 +610,59 @@ func (s *Store) Open() (retErr error) {
 	}
 	s.logger.Printf("%d preexisting snapshots present", len(snaps))
 
+	// Create the Raft log store and verify it.
+	raftDBSize, err := fsutil.FileSizeExists(s.raftDBPath)
+	if err != nil {
+		return fmt.Errorf("failed to determine size of Raft log: %s", err)
+	}
+	s.boltStore, err = rlog.New(s.raftDBPath, s.NoFreeListSync)
+	if err != nil {
+		return fmt.Errorf("new log store: %s", err)
+	}
+	fi, li, err := s.boltStore.Indexes()
+	if err != nil {
+		return fmt.Errorf("failed to retrieve log store indexes: %s", err)
+	}
+	s.logger.Println(raftLogInfoMessage(raftDBSize, fi, li))
+	if fi != 0 && li != 0 {
+		err = s.boltStore.GetLog(fi, &raft.Log{})
+		if err != nil {
+			return fmt.Errorf("failed to retrieve first log entry at index %d: %s", fi, err)
+		}
+		err = s.boltStore.GetLog(li, &raft.Log{})
+		if err != nil {
+			return fmt.Errorf("failed to retrieve last log entry at index %d: %s", li, err)
+		}
+	}
+	s.raftStable = s.boltStore
+	s.raftLog, err = raft.NewLogCache(raftLogCacheSize, s.boltStore)
+	if err != nil {
+		return fmt.Errorf("new cached store: %s", err)
+	}
+
+	// Request to recover node?
+	if fsutil.PathExists(s.peersPath) {
+		s.logger.Printf("attempting node recovery using %s", s.peersPath)
+		config, err := raft.ReadConfigJSON(s.peersPath)
+		if err != nil {
+			return fmt.Errorf("failed to read peers file: %s", err.Error())
+		}
+
+		// Recovering a node invalidates any existing SQLite file.
+		if err := fsutil.RemoveFile(s.cleanSnapshotPath); err != nil {
+			return fmt.Errorf("failed to remove clean snapshot file during RecoverNode: %w", err)
+		}
+		if err = RecoverNode(s.raftDir, s.dbConf.Extensions, s.logger, s.raftLog,
+			s.boltStore, s.snapshotStore, s.raftTn, config); err != nil {
+			return fmt.Errorf("failed to recover node: %s", err.Error())
+		}
+		if err := os.Rename(s.peersPath, s.peersInfoPath); err != nil {
+			return fmt.Errorf("failed to move %s after recovery: %s", s.peersPath, err.Error())
+		}
+		s.logger.Printf("node recovered successfully using %s", s.peersPath)
+		stats.Add(numRecoveries, 1)
+	}
+
 	// Now, check if the most recent snapshot operation ran to completion
 	// without error and also check if the underlying DB file is unchanged since
 	// that snapshot. It shouldn't be changed -- that would require manual
@@ -715,59 +768,6 @@ func (s *Store) Open() (retErr error) {
 		return nil
 	}(); err != nil {
 		return fmt.Errorf("failed to check for clean snapshot file: %s", err)
-	}
-
-	// Create the Raft log store and verify it.
-	raftDBSize, err := fsutil.FileSizeExists(s.raftDBPath)
-	if err != nil {
-		return fmt.Errorf("failed to determine size of Raft log: %s", err)
-	}
-	s.boltStore, err = rlog.New(s.raftDBPath, s.NoFreeListSync)
-	if err != nil {
-		return fmt.Errorf("new log store: %s", err)
-	}
-	fi, li, err := s.boltStore.Indexes()
-	if err != nil {
-		return fmt.Errorf("failed to retrieve log store indexes: %s", err)
-	}
-	s.logger.Println(raftLogInfoMessage(raftDBSize, fi, li))
-	if fi != 0 && li != 0 {
-		err = s.boltStore.GetLog(fi, &raft.Log{})
-		if err != nil {
-			return fmt.Errorf("failed to retrieve first log entry at index %d: %s", fi, err)
-		}
-		err = s.boltStore.GetLog(li, &raft.Log{})
-		if err != nil {
-			return fmt.Errorf("failed to retrieve last log entry at index %d: %s", li, err)
-		}
-	}
-	s.raftStable = s.boltStore
-	s.raftLog, err = raft.NewLogCache(raftLogCacheSize, s.boltStore)
-	if err != nil {
-		return fmt.Errorf("new cached store: %s", err)
-	}
-
-	// Request to recover node?
-	if fsutil.PathExists(s.peersPath) {
-		s.logger.Printf("attempting node recovery using %s", s.peersPath)
-		config, err := raft.ReadConfigJSON(s.peersPath)
-		if err != nil {
-			return fmt.Errorf("failed to read peers file: %s", err.Error())
-		}
-
-		// Recovering a node invalidates any existing SQLite file.
-		if err := fsutil.RemoveFile(s.cleanSnapshotPath); err != nil {
-			return fmt.Errorf("failed to remove clean snapshot file during RecoverNode: %w", err)
-		}
-		if err = RecoverNode(s.raftDir, s.dbConf.Extensions, s.logger, s.raftLog,
-			s.boltStore, s.snapshotStore, s.raftTn, config); err != nil {
-			return fmt.Errorf("failed to recover node: %s", err.Error())
-		}
-		if err := os.Rename(s.peersPath, s.peersInfoPath); err != nil {
-			return fmt.Errorf("failed to move %s after recovery: %s", s.peersPath, err.Error())
-		}
-		s.logger.Printf("node recovered successfully using %s", s.peersPath)
-		stats.Add(numRecoveries, 1)
 	}
 
 	// If SQLite extensions are specified, we need a custom driver.
